@@ -134,6 +134,25 @@ def run_real(c, make):
                 return self.f(name, arg, c)
         hosts = [Host(f) for f in cbs]
         get = lambda i: hosts[i].hook
+    elif c.get('flavour') == 'orphan':
+        # bound methods of host objects that NOBODY but the emitter refers to (parser.on(name, Sheet(rows).cell)): a
+        # subscription keeps its listener - and with it the object - alive; off(name, obj.hook) is written with the same object
+        import weakref
+
+        class Host2(object):
+            def __init__(self, f):
+                self.f = f
+
+            def hook(self, name, arg, c=None):
+                return self.f(name, arg, c)
+        refs = {}
+
+        def get(i):
+            h = refs[i]() if i in refs else None
+            if h is None:
+                h = Host2(cbs[i])          # no subscription holds one any more (or none was ever made): a new object
+                refs[i] = weakref.ref(h)
+            return h.hook
     elif c.get('flavour') == 'wrapped':
         # every odd callback is a decorated version (functools.wraps: __wrapped__, copied __dict__/__name__) of the
         # callback before it - a different callback all the same
@@ -206,7 +225,7 @@ def _makers():
     common.load_repo()
     import hotxlfp
     from hotxlfp.tinyemitter import Emitter
-    return {'emitter': Emitter, 'parser': hotxlfp.Parser}
+    return {'emitter': Emitter, 'parser': hotxlfp.Parser, 'debugparser': lambda: hotxlfp.Parser(debug=True)}
 
 
 def impl(c):
@@ -264,8 +283,8 @@ def gen_case(rng, maxlen):
         k = rng.choice([0, 0, 1, 1, 2, 3])
         bodies.append([gen_op(rng, names, ncb) for _ in range(k)])
     ops = [gen_op(rng, names, ncb) for _ in range(rng.randrange(1, maxlen + 1))]
-    return {'kind': 'script', 'on': rng.choice(['emitter', 'emitter', 'parser']), 'fuel': fuel,
-            'flavour': rng.choice(['function', 'function', 'bound', 'wrapped']), 'latectx': rng.random() < 0.4, 'rets': rng.random() < 0.4, 'ownnames': rng.random() < 0.5,
+    return {'kind': 'script', 'on': rng.choice(['emitter', 'emitter', 'emitter', 'emitter', 'parser', 'parser', 'debugparser']), 'fuel': fuel,
+            'flavour': rng.choice(['function', 'function', 'function', 'bound', 'bound', 'wrapped', 'wrapped', 'orphan']), 'latectx': rng.random() < 0.4, 'rets': rng.random() < 0.4, 'ownnames': rng.random() < 0.5,
             'names': names, 'bodies': bodies, 'ops': ops}
 
 
@@ -288,7 +307,8 @@ CORE = [
 def cases(rng, ctx):
     thorough = ctx['tier'] == 'thorough'
     out = [dict(c) for c in CORE] + [dict(c, flavour='bound') for c in CORE] + [dict(c, flavour='wrapped') for c in CORE] + \
-        [dict(c, latectx=True) for c in CORE] + [dict(c, rets=True) for c in CORE] + [dict(c, on='parser', ownnames=True) for c in CORE]
+        [dict(c, latectx=True) for c in CORE] + [dict(c, rets=True) for c in CORE] + [dict(c, on='parser', ownnames=True) for c in CORE] + \
+        [dict(c, flavour='orphan') for c in CORE] + [dict(c, on='debugparser') for c in CORE] + [dict(c, on='debugparser', ownnames=True) for c in CORE]
     n = (20000 if thorough else 1500) * ctx['scale']
     maxlen = 60 if thorough else 30
     for _ in range(n):
